@@ -423,6 +423,96 @@ pub enum RawBytes {
     ValidThen { valid: u8, garbage: Vec<u8> },
 }
 
+
+/// What an independent reading of the wire format expects the receiver to hand out for `wire` followed by end-of-stream.
+/// Returns the frames and how the reference stopped: "clean" (wire used up at a frame boundary), "truncated" (the stream
+/// ends inside a prefix or a body), "refused" (a length above the maximum, a prefix of ten bytes without an end, a value
+/// beyond 64 bits: the receiver must report an error) or "ambiguous" (a non-minimal prefix: the statement does not say).
+pub fn reference_frames(codec: Codec, wire: &[u8]) -> (Vec<Vec<u8>>, &'static str) {
+    let mut frames = Vec::new();
+    match codec {
+        Codec::Identity(n) => {
+            let n = n as usize;
+            let mut rest = wire;
+            while rest.len() >= n {
+                frames.push(rest[..n].to_vec());
+                rest = &rest[n..];
+            }
+            (frames, if rest.is_empty() { "clean" } else { "truncated" })
+        }
+        Codec::Varint(max) => {
+            let mut rest = wire;
+            loop {
+                if rest.is_empty() {
+                    return (frames, "clean");
+                }
+                let mut value: u64 = 0;
+                let mut used = 0usize;
+                let mut done = false;
+                for (i, b) in rest.iter().enumerate().take(10) {
+                    let low = (b & 0x7f) as u64;
+                    if i == 9 && low > 1 {
+                        return (frames, "refused");
+                    }
+                    value |= low << (7 * i);
+                    used = i + 1;
+                    if b & 0x80 == 0 {
+                        if i > 0 && *b == 0 {
+                            return (frames, "ambiguous");
+                        }
+                        done = true;
+                        break;
+                    }
+                }
+                if !done {
+                    return (frames, if used >= 10 { "refused" } else { "truncated" });
+                }
+                if let Some(m) = max {
+                    if value > m as u64 {
+                        return (frames, "refused");
+                    }
+                }
+                rest = &rest[used..];
+                if (rest.len() as u64) < value {
+                    return (frames, "truncated");
+                }
+                frames.push(rest[..value as usize].to_vec());
+                rest = &rest[value as usize..];
+            }
+        }
+    }
+}
+
+/// Raw wire bytes assembled from pieces a foreign peer may write: whole frames (also empty ones and ones of exactly the
+/// maximum), prefixes above the maximum, non-minimal and endless prefixes, a frame cut short, loose bytes.
+fn raw_pieces_strategy(codec: Codec) -> impl Strategy<Value = Vec<u8>> {
+    let max = match codec {
+        Codec::Identity(n) => n as u64,
+        Codec::Varint(Some(m)) => m as u64,
+        Codec::Varint(None) => 300,
+    };
+    let ident = matches!(codec, Codec::Identity(_));
+    let piece = prop_oneof![
+        // (whole frames of the largest maxima are left to the round-trip campaign: fed byte by byte they take minutes)
+        6 => (prop_oneof![2 => Just(0u64), 2 => Just(if max <= 16_384 { max } else { 257 }), 1 => Just(max.saturating_sub(1).min(16_383)), 4 => 0u64..=max.min(300)], any::<u64>()).prop_map(move |(len, seed)| {
+            let len = if ident { max } else { len.min(max) };
+            let mut w = if ident { vec![] } else { crate::common::uvarint(len) };
+            w.extend(fill_bytes(seed, len as usize));
+            w
+        }),
+        1 => (1u64..1000).prop_map(move |over| crate::common::uvarint(max + over)),
+        1 => (0u64..200).prop_map(crate::common::uvarint_overlong),
+        1 => (1usize..12).prop_map(|n| vec![0xffu8; n]),
+        1 => (1u64..=max.clamp(1, 300), any::<u64>(), 0u64..300).prop_map(move |(len, seed, cut)| {
+            let mut w = if ident { vec![] } else { crate::common::uvarint(len) };
+            w.extend(fill_bytes(seed, (len.saturating_sub(1 + cut % len)) as usize));
+            w
+        }),
+        1 => prop::collection::vec(any::<u8>(), 1..6),
+    ];
+    prop::collection::vec(piece, 1..8).prop_map(|ps| ps.concat())
+}
+
 fn raw_strategy() -> impl Strategy<Value = RawCase> {
     let bytes = prop_oneof![
         5 => (prop_oneof![0u64..300, Just(16_384u64), Just(300_001u64), Just(u32::MAX as u64), Just(u64::MAX), any::<u64>()], 0u16..400, prop::bool::weighted(0.2))
@@ -430,7 +520,20 @@ fn raw_strategy() -> impl Strategy<Value = RawCase> {
         2 => prop::collection::vec(any::<u8>(), 0..40).prop_map(RawBytes::Raw),
         2 => (0u8..4, prop::collection::vec(any::<u8>(), 0..20)).prop_map(|(valid, garbage)| RawBytes::ValidThen { valid, garbage }),
     ];
-    (codec_strategy(), bytes, [chunk_script_strategy(), chunk_script_strategy()]).prop_map(|(codec, bytes, chunks)| RawCase { codec, bytes, chunks })
+    let plain = (codec_strategy(), bytes, [chunk_script_strategy(), chunk_script_strategy()]).prop_map(|(codec, bytes, chunks)| RawCase { codec, bytes, chunks });
+    let pieces = codec_strategy()
+        .prop_filter("the unbounded codec has no limit to hold the receiver to", |c| !matches!(c, Codec::Varint(None) | Codec::Identity(70_000)))
+        .prop_flat_map(|codec| (Just(codec), raw_pieces_strategy(codec), [chunk_script_strategy(), chunk_script_strategy()]))
+        .prop_map(|(codec, raw, chunks)| RawCase { codec, bytes: RawBytes::Raw(raw), chunks });
+    prop_oneof![3 => plain, 2 => pieces]
+}
+
+fn hex_head(b: &[u8]) -> String {
+    let mut s: String = b.iter().take(48).map(|x| format!("{x:02x}")).collect();
+    if b.len() > 48 {
+        s.push_str(&format!("..({} bytes)", b.len()));
+    }
+    s
 }
 
 fn run_raw(c: &RawCase) -> CaseResult {
@@ -491,7 +594,7 @@ fn run_raw(c: &RawCase) -> CaseResult {
         raw.close().await.map_err(|e| CaseFail::new("C04/harness-yamux-write-failed", format!("{e:?}")))?;
         let mut got: Vec<Vec<u8>> = Vec::new();
         let mut end = "none";
-        for _ in 0..64 {
+        for _ in 0..wire.len() + 64 {
             match tokio::time::timeout(Duration::from_secs(600), reader.next()).await {
                 Err(_) => {
                     end = "stalled";
@@ -508,9 +611,10 @@ fn run_raw(c: &RawCase) -> CaseResult {
                 Ok(Some(Ok(m))) => got.push(m.to_vec()),
             }
         }
-        Ok::<_, CaseFail>((got, end, valid_frames, wire.len()))
+        Ok::<_, CaseFail>((got, end, valid_frames, wire))
     });
-    let (got, end, valid_frames, wire_len) = res?;
+    let (got, end, valid_frames, wire) = res?;
+    let wire_len = wire.len();
     ensure!(end != "stalled", "C04/reader-stalls-on-closed-stream", "{:?}", bytes_for_oracle);
     // every delivered frame respects the configured limit and the total never exceeds what was put on the wire
     let total: usize = got.iter().map(|m| m.len()).sum();
@@ -535,9 +639,27 @@ fn run_raw(c: &RawCase) -> CaseResult {
             ensure!(got.is_empty(), "C04/truncated-frame-delivered", "announced {announced}, sent {actual}");
         }
     }
+    // differential against an independent reading of the wire format
+    let (expect, stop) = reference_frames(codec, &wire);
+    if !matches!(codec, Codec::Varint(None)) {
+        for (k, f) in expect.iter().enumerate() {
+            ensure!(got.get(k) == Some(f), "C04/well-formed-frame-not-delivered-as-sent", "frame #{k} of {} ({} bytes) on wire {}; got {} frames, end {end}", expect.len(), f.len(), hex_head(&wire), got.len());
+        }
+        if stop != "ambiguous" {
+            ensure!(got.len() == expect.len(), "C04/frame-delivered-that-the-wire-does-not-hold", "{} delivered, {} on the wire ({stop}): {}", got.len(), expect.len(), hex_head(&wire));
+        }
+        if stop == "refused" {
+            ensure!(end == "error", "C04/oversized-or-malformed-length-not-refused", "end {end} on wire {}", hex_head(&wire));
+        }
+    }
     let mut ok = CaseOk::nontrivial();
     ok.excluded = excluded;
-    Ok(ok.class("raw-injection").class(match end {
+    Ok(ok.class("raw-injection").class(match stop {
+        "clean" => "wire-clean",
+        "truncated" => "wire-truncated",
+        "refused" => "wire-refused",
+        _ => "wire-ambiguous",
+    }).class_if(expect.len() >= 2, "wire-two-or-more-frames").class(match end {
         "error" => "reader-error",
         "closed" => "reader-closed",
         _ => "reader-other",
@@ -668,6 +790,63 @@ fn run_pieces(c: &PiecesCase) -> CaseResult {
         ensure!(g == e, "C04/received-sequence-differs-from-sent", "frame #{k}: got {} bytes, sent {} bytes (or different content)", g.len(), e.len());
     }
     Ok(CaseOk::trivial().nt(split_prefix).class_if(split_prefix, "length-prefix-split-across-writes").class("frames-in-pieces"))
+}
+
+// ---------------------------------------------------------------------------------------------
+// byte-level entry (libFuzzer, thorough tier): byte 0 picks the codec, byte 1 the carrier script, the rest is what a foreign
+// peer writes on the stream before closing it; judged by the raw-injection oracle (differential against `reference_frames`)
+
+const FUZZ_CODECS: [Codec; 10] = [
+    Codec::Varint(Some(0)),
+    Codec::Varint(Some(1)),
+    Codec::Varint(Some(127)),
+    Codec::Varint(Some(128)),
+    Codec::Varint(Some(16_383)),
+    Codec::Varint(Some(16_384)),
+    Codec::Varint(Some(300_000)),
+    Codec::Identity(1),
+    Codec::Identity(10),
+    Codec::Identity(1025),
+];
+
+fn fuzz_chunks(sel: u8) -> [ChunkScript; 2] {
+    let one = |s: u8| match s % 4 {
+        0 => ChunkScript::passthrough(),
+        1 => ChunkScript { steps: vec![(1, false)] },
+        2 => ChunkScript { steps: vec![(1, true)] },
+        _ => ChunkScript { steps: vec![(3, false), (1, true), (7, false), (2, true)] },
+    };
+    [one(sel), one(sel >> 2)]
+}
+
+pub fn fuzz_bytes(data: &[u8]) -> Option<crate::engine::FuzzOutcome> {
+    if data.len() < 2 {
+        return None;
+    }
+    let c = RawCase { codec: FUZZ_CODECS[data[0] as usize % FUZZ_CODECS.len()], bytes: RawBytes::Raw(data[2..].to_vec()), chunks: fuzz_chunks(data[1]) };
+    Some(crate::engine::FuzzOutcome { sub: "raw-injection".into(), case: serde_json::to_value(&c).ok()?, result: crate::engine::guarded(|| run_raw(&c)) })
+}
+
+pub fn fuzz_seed_corpus() -> Vec<Vec<u8>> {
+    let mut out = Vec::new();
+    for (i, codec) in FUZZ_CODECS.iter().enumerate() {
+        for seed in 0..6u64 {
+            let mut v = vec![i as u8, seed as u8];
+            for k in 0..(1 + seed % 3) {
+                let len = match codec {
+                    Codec::Identity(n) => *n as u64,
+                    Codec::Varint(Some(m)) => (*m as u64).min(3 + 40 * k + seed),
+                    Codec::Varint(None) => 5,
+                };
+                if let Codec::Varint(_) = codec {
+                    v.extend(crate::common::uvarint(len));
+                }
+                v.extend(fill_bytes(seed * 31 + k, len as usize));
+            }
+            out.push(v);
+        }
+    }
+    out
 }
 
 pub fn run(ctx: &mut Ctx) {
